@@ -587,6 +587,67 @@ class _StarDisplays(ast.NodeTransformer):
         return c
 
 
+class _RecordDicts:
+    """`f(x, **rec._asdict())` -> `f(x, a=rec.a, b=rec.b)` when `rec` is a local bound exactly once, by a plain assignment, to the
+    construction of a NamedTuple class of this module (fields a, b in that order), and none of the field names is already a keyword of
+    the call: `_asdict()` of a named tuple yields exactly its fields, in order, and reading them is pure."""
+    def __init__(self):
+        self.rewritten: List[str] = []
+
+    def visit(self, tree: ast.Module) -> None:
+        recs: Dict[str, List[str]] = {}
+        for st in tree.body:
+            if isinstance(st, ast.ClassDef) and any((isinstance(b, ast.Name) and b.id == "NamedTuple") or (isinstance(b, ast.Attribute) and b.attr == "NamedTuple") for b in st.bases):
+                flds = [x.target.id for x in st.body if isinstance(x, ast.AnnAssign) and isinstance(x.target, ast.Name)]
+                if flds and not any(isinstance(x, (ast.FunctionDef, ast.AsyncFunctionDef)) and x.name == "_asdict" for x in st.body):
+                    recs[st.name] = flds
+        if not recs:
+            return
+        for fn in [x for x in ast.walk(tree) if isinstance(x, (ast.FunctionDef, ast.AsyncFunctionDef))]:
+            binds: Dict[str, List[ast.AST]] = {}
+            other: set = set()
+            for x in _own(fn):
+                if isinstance(x, ast.Assign) and len(x.targets) == 1 and isinstance(x.targets[0], ast.Name):
+                    binds.setdefault(x.targets[0].id, []).append(x.value)
+                elif isinstance(x, ast.Name) and isinstance(x.ctx, (ast.Store, ast.Del)):
+                    other.add(id(x))
+            stores: Dict[str, int] = {}
+            for x in _own(fn):
+                if isinstance(x, ast.Name) and isinstance(x.ctx, (ast.Store, ast.Del)):
+                    stores[x.id] = stores.get(x.id, 0) + 1
+            params = {a.arg for a in fn.args.args + fn.args.kwonlyargs + fn.args.posonlyargs} | ({fn.args.vararg.arg} if fn.args.vararg else set()) | ({fn.args.kwarg.arg} if fn.args.kwarg else set())
+            for c in [x for x in _own(fn) if isinstance(x, ast.Call)]:
+                kws: List[ast.keyword] = []
+                changed = False
+                for k in c.keywords:
+                    v = k.value
+                    if k.arg is None and isinstance(v, ast.Call) and not v.args and not v.keywords and isinstance(v.func, ast.Attribute) and v.func.attr == "_asdict" \
+                            and isinstance(v.func.value, ast.Name):
+                        nm = v.func.value.id
+                        bs = binds.get(nm, [])
+                        if len(bs) == 1 and stores.get(nm) == 1 and nm not in params and isinstance(bs[0], ast.Call) and isinstance(bs[0].func, ast.Name) and bs[0].func.id in recs:
+                            flds = recs[bs[0].func.id]
+                            have = {q.arg for q in c.keywords if q.arg is not None}
+                            if not (set(flds) & have):
+                                kws += [ast.copy_location(ast.keyword(arg=f_, value=ast.copy_location(ast.Attribute(value=ast.copy_location(ast.Name(id=nm, ctx=ast.Load()), v), attr=f_, ctx=ast.Load()), v)), v) for f_ in flds]
+                                changed = True
+                                continue
+                    kws.append(k)
+                if changed:
+                    c.keywords = kws
+                    self.rewritten.append(fn.name)
+
+
+def _own(fn: ast.AST):
+    """nodes of a function body, not descending into nested functions / classes / lambdas"""
+    stack = list(ast.iter_child_nodes(fn))
+    while stack:
+        x = stack.pop()
+        yield x
+        if not isinstance(x, (ast.FunctionDef, ast.AsyncFunctionDef, ast.ClassDef, ast.Lambda)):
+            stack.extend(ast.iter_child_nodes(x))
+
+
 class _MapCalls(ast.NodeTransformer):
     """`map(F, X)` -> `(F(v) for v in X)` where F is a plain name or attribute chain (a pure read: evaluating it per item instead
     of once changes nothing) and there is one iterable: both call iter(X) at once and F(item) at each step.  Directly inside
@@ -1725,6 +1786,7 @@ def normalise(tree: ast.Module, imported_gens: Optional[Dict[str, ast.FunctionDe
     pp = _PrivateProps()
     pp.visit(tree)
     tree._tpsa_private_props = pp.converted  # type: ignore[attr-defined]
+    _RecordDicts().visit(tree)
     _StarDisplays().visit(tree)
     _MapCalls().visit(tree)
     f = _Fold()
